@@ -755,6 +755,32 @@ def classify(case, obs, spec):
                 regdiff.add(k)
     views = {s['id']: s for s in stmts if s['k'] == 'view'}
 
+    def benign_swap(k):
+        # a slot whose variants differ only in the order of members with EQUAL predicate order that can never hold together
+        # (values differing only by not_(): method 'POST' / '!POST'): no answer depends on that order -- not a difference
+        from .world import slotkey
+        members = {s['id']: s for s in views.values() if 'view:' + slotkey(s) == k}
+        lists = [v['regs'].get(k, []) for v in obs['variants']]
+        if not members or not all(sorted(l) == sorted(lists[0]) and all(i in members for i in l) for l in lists):
+            return False
+        cust = _customs(case)
+        o = {i: view_order(s, cust, True) for i, s in members.items()}
+        for l in lists:
+            if [o[i] for i in l] != sorted(o[i] for i in l):
+                return False
+        ids = list(members)
+        for x in range(len(ids)):
+            for y in range(x + 1, len(ids)):
+                a_, b_ = members[ids[x]], members[ids[y]]
+                if o[ids[x]] == o[ids[y]]:
+                    ma, mb = str(a_.get('method')), str(b_.get('method'))
+                    if not (ma == '!' + mb or mb == '!' + ma):
+                        return False
+                    if G.view_key(dict(a_, method=None)) != G.view_key(dict(b_, method=None)):
+                        return False
+        return True
+    regdiff = set(k for k in regdiff if not (k.startswith('view:') and benign_swap(k)))
+
     def answered_by(i):
         out = set()
         for q in obs['probes']:
@@ -864,6 +890,8 @@ def kinds(case, obs):
         ks.append('ill-formed-program')
     if any(s.get('ret') == 'mv' for s in case['stmts']):
         ks.append('has-view-for-custom-mapper')
+    if any(str(s.get('method', '')).startswith('!') for s in case['stmts']):
+        ks.append('has-not_-predicate-value')
     if any(s.get('nones') for s in case['stmts']):
         ks.append('explicit-None-arguments')
     if 'twice' in str(case['variants']):
@@ -941,6 +969,8 @@ def targeted(broken, disagreements, rng):
          {'rootprefix': 'api/'}),
         ([dict(k='static', name='st1'), dict(k='view', name='x')], {'rootprefix': 'api/'}),
         ([dict(k='route', name='r0', pattern='/q', prefix=1), dict(k='view', name='', route='r0')], {'rootprefix': '/api/'}),
+        # predicate values that differ only by not_(): distinct discriminators, disjoint requests
+        [dict(k='view', name='n', method='POST'), dict(k='view', name='n', method='!POST'), dict(k='view', name='x')],
         # default-phase writers that requests read: a CSRF-checked view / a rendered view declared BEFORE them
         [dict(k='view', name='x', csrf=True), dict(k='csrfstore'), dict(k='sessf'), dict(k='view', name='y', csrf=True)],
         [dict(k='csrf'), dict(k='view', name='x'), dict(k='csrfstore'), dict(k='sessf')],
